@@ -49,6 +49,7 @@ def tier_from_env(default="quick"):
 # --------------------------------------------------------------------------
 
 _build_dirs = []
+_built = {}
 
 
 def _cleanup():
@@ -95,6 +96,12 @@ def build(check_id, name, drivers, sanitize=False, opt="-O2", extra=(), with_db=
     """
     repo = repo or REPO
     d = build_dir(check_id)
+    memo = (check_id, name, tuple(drivers), sanitize, opt, tuple(extra), with_db, tuple(extra_sources),
+            tuple(lib_sources) if lib_sources is not None else None, tuple(db_sources) if db_sources is not None else None,
+            repo, fuzzer, recover)
+    # builds that include generated sources are never reused (same paths, different contents)
+    if not extra_sources and memo in _built and os.path.exists(_built[memo]):
+        return _built[memo]
     objdir = os.path.join(d, name + ".o")
     os.makedirs(objdir, exist_ok=True)
     flags = base_flags(repo)
@@ -142,6 +149,7 @@ def build(check_id, name, drivers, sanitize=False, opt="-O2", extra=(), with_db=
     rc, out, cmd = _run_cc(["clang++"] + lflags + objs + ["-o", exe])
     if rc != 0:
         raise HarnessError("link failed: %s\n%s" % (" ".join(cmd), out[-4000:]))
+    _built[memo] = exe
     return exe
 
 
@@ -305,6 +313,29 @@ def main(prop, run, argv=None, level="exploration"):
         traceback.print_exc()
         print("HARNESS-ERROR property=%s: unexpected exception in the check itself" % prop)
         sys.exit(2)
+    if a.replay is None and os.environ.get("VERIF_SKIP_FIXED_REPLAYS") != "1":
+        # regression tier: the saved minimal input of every repaired finding is replayed on every run, so that a defect
+        # that returns is reported even when the generated search does not happen to rediscover it
+        import glob
+        fixed = sorted(glob.glob(os.path.join(VERIF, "replays", prop, "fixed_*.json")))
+        for path in fixed:
+            sub = Ctx(prop, a.tier, path, level)
+            sub.known = ctx.known
+            sub.known_hits = ctx.known_hits
+            try:
+                run(sub)
+            except HarnessError as e:
+                print("HARNESS-ERROR property=%s (replay %s): %s" % (prop, os.path.basename(path), e))
+                sys.exit(2)
+            except Exception:
+                traceback.print_exc()
+                print("HARNESS-ERROR property=%s: unexpected exception while replaying %s" % (prop, os.path.basename(path)))
+                sys.exit(2)
+            for key, rp, msg in sub.violations:
+                if rp is not None:
+                    # the sub-context already printed a VIOLATION line naming the file it wrote
+                    ctx.violations.append(("replay:" + key, rp, msg))
+        ctx.extra["fixed_replays_run"] = [os.path.basename(p_) for p_ in fixed]
     if a.replay is None:
         if (ctx.evaluations < 1 or ctx.nontrivial < 2) and not ctx.violations:
             ctx.write_evidence()
